@@ -1,6 +1,32 @@
 /-
   C18 — exporting the application state and initialising a fresh chain from it reproduces the same
   state (x/locking and x/relayer: the two modules that rebuild derived data on import).
+
+  Full statement (property text): "for any reachable state: a second export is identical to the
+  first, every query returns the same answers, the initial validator set equals the exported active
+  set, and all derived indices and queues satisfy the same invariants the running chain maintains".
+
+  Proved here (model: GoatModel/Genesis.lean), for every store satisfying explicit, decidable
+  invariants (`WfState`, `Derived`, `RImportable`, `QueueDerived`):
+    (a) `Derived`                          relation primary ↔ derived data of x/locking
+    (b) `initGenesis_establishes_Derived`  import of any well-formed genesis establishes it
+        `initGenesisCore_spec`             … and the imported store in closed form
+    (c) `import_export`, `Reproduces.exact`, `export_import`, `derived_unique`
+    (d) in `import_export`: validator updates = recorded validator set
+    (e) `initRelayer_ok_iff` (exact list of what the import demands), `relayer_import_export`,
+        `RReproduces.queue`, `relayer_export_import`
+    executable forms: `derivedOk_iff`, `queueOk_iff`, `roundTripOk_of`
+  Not proved here: that the invariants hold in every reachable state (C13/C16 territory), and the
+  equality of query answers (queries are functions of the collections compared here).
+
+  Findings (section `Finding`, proved by evaluation):
+    F-A `duplicate_key_hash_blocks_import`     the consensus layer files two pending voters with the same
+        vote-key hash; the import of that store's export panics ("duplicated vote key") — so the
+        "for any reachable state" part is FALSE of the model unless the execution layer never repeats a
+        key hash; hence the bundled theorem below is named `c18_round_trip_partial`.
+    F-B `boarding_order_changes_next_proposer` the boarding queue is rebuilt in key order, the running
+        chain keeps arrival order, and EndBlocker elects the proposer by position: the imported chain
+        answers all queries alike, exports the same genesis, and elects a different proposer.
 -/
 import GoatModel.Genesis
 namespace Goat.C18
@@ -77,18 +103,9 @@ theorem sorted_ext {α} (R : α → α → Prop) (irr : ∀ a, ¬ R a a) (asym :
 
 /-! ## x/locking: closed form of the import -/
 
-/-- status ∈ {Active, Pending} -/
-def isAP (v : Validator) : Bool := v.status == .active || v.status == .pending
-
 /-- store keys attached to a list of genesis validators -/
 def keyed (h : Bytes → Bytes) (vs : List Validator) : List (Bytes × Validator) := vs.map (fun v => (h v.pubkey, v))
 
-def idxOf (kvs : List (Bytes × Validator)) : List ((String × Bytes) × Int) :=
-  kvs.flatMap (fun e => if isAP e.2 then e.2.locking.map (fun c => ((c.1, e.1), c.2)) else [])
-def valsetOf (kvs : List (Bytes × Validator)) : List (Bytes × Nat) :=
-  (kvs.filter (fun e => e.2.status == .active)).map (fun e => (e.1, e.2.power))
-def rankOf (kvs : List (Bytes × Validator)) : List (Nat × Bytes) :=
-  (kvs.filter (fun e => isAP e.2 && decide (e.2.power > 0))).map (fun e => (e.2.power, e.1))
 def upsOf (kvs : List (Bytes × Validator)) : List Update :=
   (kvs.filter (fun e => e.2.status == .active)).map (fun e => { pubkey := e.2.pubkey, power := e.2.power })
 
@@ -1345,10 +1362,8 @@ theorem relayer_import_export (addrOf : Bytes → String) (dec : String → Bool
   · refine ⟨rfl, rfl, rfl, rfl, rfl, rfl, rfl, rfl, hrecs, hpk, ?_, ?_⟩
     · exact queueOf_of_keyed addrOf .onBoarding _ hk
     · exact queueOf_of_keyed addrOf .offBoarding _ hk
-  · have hall2 : (sortKeys (sortKeys s.pubkeys)).all (fun k => (decodePub k).isSome) = true := by
-      rw [sortKeys_idem]; exact hall
-    simp only [exportRelayerGenesis, importedState, exportedOf, itemOf]
-    simp only [hrecs, hpk, sortRecs_idem, sortKeys_idem, hall2, Bool.not_true, Bool.false_eq_true, if_false]
+  · simp only [exportRelayerGenesis, importedState, exportedOf, itemOf]
+    simp only [hrecs, hpk, sortRecs_idem, sortKeys_idem, hall, Bool.not_true, Bool.false_eq_true, if_false]
 
 theorem mem_statusQueue (s : Relayer.State) (st : VStatus) (a : String) :
     a ∈ statusQueue s st ↔ ∃ v, (a, v) ∈ s.recs ∧ v.status = st := by
@@ -1413,5 +1428,330 @@ theorem relayer_export_import (addrOf : Bytes → String) (dec : String → Bool
   simp [d1]
 
 end relayer
+
+/-! ## executable forms -/
+
+theorem sameSet_iff {α} [BEq α] [LawfulBEq α] (a b : List α) : sameSet a b = true ↔ ∀ x, x ∈ a ↔ x ∈ b := by
+  simp only [sameSet, Bool.and_eq_true, List.all_eq_true, List.contains_iff_mem]
+  constructor
+  · rintro ⟨h1, h2⟩ x; exact ⟨h1 x, h2 x⟩
+  · intro h; exact ⟨fun x => (h x).1, fun x => (h x).2⟩
+
+theorem mem_thresholdsOf (toks : List (String × Token)) (d : String) (x : Int) :
+    (d, x) ∈ thresholdsOf toks ↔ x ≠ 0 ∧ ∃ t, (d, t) ∈ toks ∧ t.threshold = x := by
+  simp only [thresholdsOf, List.mem_map, List.mem_filter, bne_iff_ne, ne_eq, Prod.mk.injEq]
+  constructor
+  · rintro ⟨t, ⟨ht, hz⟩, rfl, rfl⟩; exact ⟨hz, t.2, ht, rfl⟩
+  · rintro ⟨hz, t, ht, rfl⟩; exact ⟨(d, t), ⟨ht, hz⟩, rfl, rfl⟩
+
+/-- `Derived` is decidable: it is what the executable monitor `Genesis.derivedOk` computes -/
+theorem derivedOk_iff (s : State) : derivedOk s = true ↔ Derived s := by
+  simp only [derivedOk, Bool.and_eq_true, decide_eq_true_eq, sameSet_iff]
+  constructor
+  · rintro ⟨⟨⟨⟨⟨⟨⟨h1, h2⟩, h3⟩, h4⟩, h5⟩, h6⟩, h7⟩, h8⟩
+    refine ⟨?_, h2, ?_, h4, ?_, h6, h7, ?_⟩
+    · intro d a x; rw [h1, mem_idxOf]; simp only [isAP_iff]
+    · intro p a; rw [h3, mem_rankOf]; simp only [isAP_iff]
+    · intro a p; rw [h5, mem_valsetOf]
+    · intro d x; rw [h8, mem_thresholdsOf]
+  · intro hd
+    refine ⟨⟨⟨⟨⟨⟨⟨?_, hd.idx_nodup⟩, ?_⟩, hd.rank_nodup⟩, ?_⟩, hd.valset_nodup⟩, hd.thr_sorted⟩, ?_⟩
+    · rintro ⟨⟨d, a⟩, x⟩; rw [hd.idx_mem, mem_idxOf]; simp only [isAP_iff]
+    · rintro ⟨p, a⟩; rw [hd.rank_mem, mem_rankOf]; simp only [isAP_iff]
+    · rintro ⟨a, p⟩; rw [hd.valset_mem, mem_valsetOf]
+    · rintro ⟨d, x⟩; rw [hd.thr_mem, mem_thresholdsOf]
+
+instance (s : State) : Decidable (Derived s) := decidable_of_iff _ (derivedOk_iff s)
+
+section relayer
+open Goat.Relayer
+
+theorem queueOk_iff (s : Relayer.State) : queueOk s = true ↔ QueueDerived s := by
+  simp only [queueOk, Bool.and_eq_true, sameSet_iff, QueueDerived, List.mem_map, List.mem_filter, beq_iff_eq]
+  have key : ∀ (st : VStatus) (a : String),
+      (∃ e : String × Voter, (e ∈ s.recs ∧ e.2.status = st) ∧ e.1 = a) ↔ ∃ v, (a, v) ∈ s.recs ∧ v.status = st := by
+    intro st a
+    constructor
+    · rintro ⟨e, ⟨he, hs⟩, rfl⟩; exact ⟨e.2, he, hs⟩
+    · rintro ⟨v, hv, hs⟩; exact ⟨(a, v), ⟨hv, hs⟩, rfl⟩
+  simp only [key]
+
+instance (s : Relayer.State) : Decidable (QueueDerived s) := decidable_of_iff _ (queueOk_iff s)
+
+end relayer
+
+/-! ## the executable round-trip check never fails on well-formed stores -/
+
+theorem vget_of_mem (s : State) (hn : (s.validators.map (·.1)).Nodup) (a : Bytes) (v : Validator)
+    (hv : (a, v) ∈ s.validators) : vget s a = some v := by
+  unfold vget
+  cases hf : s.validators.find? (fun e => e.1 == a) with
+  | none =>
+    rw [List.find?_eq_none] at hf
+    exact absurd (by simp) (hf (a, v) hv)
+  | some e =>
+    have he := List.mem_of_find?_eq_some hf
+    have hea : e.1 = a := by simpa using List.find?_some hf
+    obtain ⟨a', v'⟩ := e
+    simp only at hea
+    subst hea
+    simp only [Option.map_some, Option.some.injEq]
+    exact assoc_unique _ hn a' v' v he hv
+
+theorem lockingRoundTripOk_of (h : Bytes → Bytes) (s : State) (wf : WfState h s) (hd : Derived s) :
+    lockingRoundTripOk h s = true := by
+  obtain ⟨s', ups, hok, hr, hu, hexp⟩ := import_export h s wf hd
+  obtain ⟨_, hvn, _⟩ := wf
+  unfold lockingRoundTripOk
+  rw [hok]
+  simp only [Bool.and_eq_true, beq_iff_eq, sameSet_iff]
+  refine ⟨⟨⟨⟨⟨⟨⟨⟨⟨⟨⟨⟨⟨⟨hr.params, ?_⟩, ?_⟩, ?_⟩, hr.nonce⟩, hr.pool⟩, hr.qRewards⟩, hr.qUnlocks⟩, ?_⟩,
+    hr.lockingIdx⟩, hr.ranking⟩, hr.valset⟩, hr.threshold⟩, ?_⟩, hexp⟩
+  · intro x; rw [hr.validators]; exact (sortVals_perm _).mem_iff
+  · intro x; rw [hr.tokens]; exact (sortTokens_perm _).mem_iff
+  · intro x; rw [hr.slashed]; exact (sortCoins_perm _).mem_iff
+  · intro x; rw [hr.unlockQueue]; exact (sortQueue_perm _).mem_iff
+  · intro u
+    rw [hu u, List.mem_map]
+    constructor
+    · rintro ⟨a, v, hv, hvs, hpk⟩
+      refine ⟨(a, u.power), hvs, ?_⟩
+      simp only [pubkeyOf, vget_of_mem s hvn a v hv, Option.map_some, Option.getD_some, hpk]
+    · rintro ⟨⟨a, p⟩, hvs, rfl⟩
+      obtain ⟨v, hv, _, _⟩ := (hd.valset_mem a p).1 hvs
+      refine ⟨a, v, hv, hvs, ?_⟩
+      simp only [pubkeyOf, vget_of_mem s hvn a v hv, Option.map_some, Option.getD_some]
+
+/-- the address oracle read off a well-formed store agrees with the real derivation on its keys -/
+theorem keyOracle_wf (h : Bytes → Bytes) (s : State) (wf : WfState h s) : WfState (keyOracle s) s := by
+  obtain ⟨hk, rest⟩ := wf
+  refine ⟨?_, rest⟩
+  intro e he
+  unfold keyOracle
+  cases hf : s.validators.find? (fun e' => e'.2.pubkey == e.2.pubkey) with
+  | none =>
+    rw [List.find?_eq_none] at hf
+    exact absurd (by simp) (hf e he)
+  | some e' =>
+    have he' := List.mem_of_find?_eq_some hf
+    have hpk : e'.2.pubkey = e.2.pubkey := by simpa using List.find?_some hf
+    simp only [Option.map_some, Option.getD_some]
+    rw [hk e he, hk e' he', hpk]
+
+section relayer
+open Goat.Relayer
+
+theorem relayerRoundTripOk_of (addrOf : Bytes → String) (dec : String → Bool) (s : Relayer.State)
+    (wf : RImportable addrOf dec s) (hq : QueueDerived s) : relayerRoundTripOk addrOf dec s = true := by
+  obtain ⟨g, s', hexp, himp, hr, hexp'⟩ := relayer_import_export addrOf dec s wf
+  obtain ⟨q1, q2⟩ := hr.queue.2 hq
+  unfold relayerRoundTripOk
+  rw [hexp]
+  simp only [himp, hexp']
+  simp only [Bool.and_eq_true, beq_iff_eq, sameSet_iff, BEq.rfl, and_true]
+  refine ⟨⟨⟨⟨⟨⟨⟨⟨⟨⟨⟨hr.params, hr.proposer⟩, hr.voters⟩, hr.epoch⟩, hr.lastElected⟩, hr.accepted⟩, hr.seq⟩, hr.randao⟩,
+    ?_⟩, ?_⟩, q1⟩, q2⟩
+  · intro x; rw [hr.recs]; exact (sortRecs_perm _).mem_iff
+  · intro x; rw [hr.pubkeys]; exact (sortKeys_perm _).mem_iff
+
+theorem addrOracle_wf (addrOf : Bytes → String) (dec : String → Bool) (s : Relayer.State)
+    (wf : RImportable addrOf dec s) (hp : s.proposer ≠ "") : RImportable (addrOracle s) (fun a => a != "") s := by
+  obtain ⟨w1, w2, w3, w4, w5, _, rest⟩ := wf
+  refine ⟨w1, w2, ?_, w4, w5, by simpa using hp, rest⟩
+  intro e he
+  unfold addrOracle
+  cases hf : s.recs.find? (fun e' => e'.2.address == e.2.address) with
+  | none =>
+    rw [List.find?_eq_none] at hf
+    exact absurd (by simp) (hf e he)
+  | some e' =>
+    have he' := List.mem_of_find?_eq_some hf
+    have hpk : e'.2.address = e.2.address := by simpa using List.find?_some hf
+    simp only [Option.map_some, Option.getD_some]
+    rw [w3 e he, w3 e' he', hpk]
+
+/-- **The executable C18 check of the driver holds on every pair of stores that satisfies the
+    invariants**: well-formed primary data, `Derived`, importable relayer group, status-derived
+    boarding queue.  Hence a `false` from `Genesis.roundTripOk` on a state observed on the real
+    application exhibits a violated invariant or a genuine export/import defect. -/
+theorem roundTripOk_of (h : Bytes → Bytes) (addrOf : Bytes → String) (dec : String → Bool)
+    (s : Locking.State) (r : Relayer.State) (wf : WfState h s) (hd : Derived s)
+    (rwf : RImportable addrOf dec r) (hq : QueueDerived r) (hp : r.proposer ≠ "") :
+    roundTripOk s r = true := by
+  unfold roundTripOk
+  rw [lockingRoundTripOk_of _ s (keyOracle_wf h s wf) hd,
+    relayerRoundTripOk_of _ _ r (addrOracle_wf addrOf dec r rwf hp) hq]
+  rfl
+
+end relayer
+
+/-! ## the hypotheses are satisfiable: concrete stores -/
+namespace Example
+
+/-- a stand-in for hash160 (any function works; the theorems are parametric in it) -/
+def h (pk : Bytes) : Bytes := 9 :: pk
+
+def p0 : Params :=
+  { unlockDuration := 1, exitingDuration := 2, downtimeJail := 3, maxValidators := 4, signedBlocksWindow := 5,
+    maxMissed := 6, slashDoubleSign := 7, slashDowntime := 8, halvingInterval := 9, initialReward := 10 }
+def vA : Validator :=
+  { pubkey := [2, 1], power := 5, locking := [("btc", 3), ("goat", 7)], reward := 1, gasReward := 2, status := .active,
+    offset := 1, missed := 0, jailedUntil := 0 }
+def vP : Validator :=
+  { pubkey := [2, 2], power := 0, locking := [("goat", 1)], reward := 0, gasReward := 0, status := .pending,
+    offset := 0, missed := 0, jailedUntil := 0 }
+def vI : Validator :=
+  { pubkey := [2, 3], power := 0, locking := [("btc", 9)], reward := 0, gasReward := 0, status := .inactive,
+    offset := 0, missed := 0, jailedUntil := 0 }
+
+/-- an active, a pending (no power yet: unranked) and an inactive validator; two tokens with
+    thresholds; derived lists in an order the running chain could have produced -/
+def s0 : State :=
+  { params := p0, validators := [([9, 2, 1], vA), ([9, 2, 2], vP), ([9, 2, 3], vI)],
+    lockingIdx := [(("goat", [9, 2, 2]), 1), (("btc", [9, 2, 1]), 3), (("goat", [9, 2, 1]), 7)],
+    ranking := [(5, [9, 2, 1])], valset := [([9, 2, 1], 5)],
+    tokens := [("btc", { weight := 1, threshold := 2 }), ("goat", { weight := 1, threshold := 5 })],
+    threshold := [("btc", 2), ("goat", 5)], slashed := [("btc", 4)], nonce := 3,
+    pool := { goat := 1, gas := 2, remain := 3 }, qRewards := [{ id := 1, recipient := [7], goat := 1, gas := 0 }],
+    qUnlocks := [], unlockQueue := [(5, [{ id := 1, token := [], recipient := [1], amount := 3 }])] }
+
+/-- the same store with the association lists in insertion (non-key) order -/
+def s1 : State :=
+  { s0 with validators := [([9, 2, 3], vI), ([9, 2, 1], vA), ([9, 2, 2], vP)],
+            tokens := [("goat", { weight := 1, threshold := 5 }), ("btc", { weight := 1, threshold := 2 })] }
+
+example : WfState h s0 := by decide
+example : Canonical s0 := by decide
+example : Derived s0 := by decide
+example : WfState h s1 ∧ Derived s1 ∧ ¬ Canonical s1 := by decide
+
+/-- `import_export` applies to the concrete stores -/
+example := import_export h s0 (by decide) (by decide)
+example := import_export h s1 (by decide) (by decide)
+
+/-- `Derived` is not vacuous: dropping the pending validator's index entry violates it -/
+example : ¬ Derived { s0 with lockingIdx := [(("btc", [9, 2, 1]), 3), (("goat", [9, 2, 1]), 7)] } := by decide
+/-- … and so does a ranking entry for the power-less pending validator (the defect repaired in
+    InitGenesis: "do not rank zero-power validators when importing genesis") -/
+example : ¬ Derived { s0 with ranking := [(5, [9, 2, 1]), (0, [9, 2, 2])] } := by decide
+
+open Goat.Relayer
+
+def addrOf (a : Bytes) : String :=
+  if a = [1] then "a" else if a = [2] then "b" else if a = [3] then "c" else if a = [4] then "d"
+  else if a = [5] then "e" else if a = [6] then "f" else "?"
+def dec (a : String) : Bool := a != ""
+def key96 (b : UInt8) : Bytes := List.replicate 96 b
+def key32 (b : UInt8) : Bytes := List.replicate 32 b
+
+/-- proposer `a`, voter `b`, `c` and `d` on-boarding (`d` arrived first), `e` pending -/
+def r0 : Relayer.State :=
+  { params := { electingPeriod := 600, acceptProposerTimeout := 0 }, proposer := "a", voters := ["b"], epoch := 3,
+    lastElected := 7, accepted := true, seq := 9, randao := [1, 2],
+    recs := [("a", { address := [1], voteKey := key96 1, status := .activated, height := 0 }),
+             ("b", { address := [2], voteKey := key96 2, status := .activated, height := 0 }),
+             ("c", { address := [3], voteKey := key96 3, status := .onBoarding, height := 4 }),
+             ("d", { address := [4], voteKey := key96 4, status := .onBoarding, height := 3 }),
+             ("e", { address := [5], voteKey := key32 5, status := .pending, height := 5 })],
+    onBoarding := ["d", "c"], offBoarding := [], pubkeys := [0 :: 2 :: List.replicate 32 7] }
+
+example : RImportable addrOf dec r0 := by decide
+example : QueueDerived r0 := by decide
+
+example := relayer_import_export addrOf dec r0 (by decide)
+theorem s0_r0_check : roundTripOk s0 r0 = true :=
+  roundTripOk_of h addrOf dec s0 r0 (by decide) (by decide) (by decide) (by decide) (by decide)
+
+end Example
+
+/-! ## findings (counterexamples, proved by evaluation) -/
+namespace Finding
+open Example Goat.Relayer
+
+def crypto : Crypto :=
+  { sha256 := id, hash160 := id, aggVerify := fun _ _ _ => true, blsVerify := fun _ _ _ => true,
+    ecdsaVerify := fun _ _ _ => true, addrOf := addrOf }
+
+/-- the genesis a store exports when its records and keys are already in key order -/
+def exportLit (s : Relayer.State) : RGenesis :=
+  { params := s.params, relayer := some (itemOf s), sequence := s.seq, voters := s.recs.map (·.2),
+    pubkeys := s.pubkeys.filterMap decodePub, randao := s.randao }
+
+theorem export_lit (s : Relayer.State) (h1 : s.recs.Pairwise (fun a b => a.1 < b.1))
+    (h2 : s.pubkeys.Pairwise (fun a b => bytesLt a b = true))
+    (h3 : s.pubkeys.all (fun k => (decodePub k).isSome) = true) : exportRelayerGenesis s = .ok (exportLit s) := by
+  simp [exportRelayerGenesis, sortRecs_id _ h1, sortKeys_id _ h2, h3, exportLit, itemOf]
+
+/-! ### F-A  import refuses a store the consensus layer can reach: two voters with one vote-key hash
+
+  `ProcessRelayerRequest` files a pending voter per *address* and never compares vote-key hashes;
+  `InitGenesis` panics on a repeated vote key.  (Whether the execution-layer contract excludes the
+  repeated hash is outside /repo.) -/
+
+/-- proposer `a`, voter `b`, no boarding -/
+def rBase : Relayer.State := { r0 with recs := r0.recs.take 2, onBoarding := [] }
+
+/-- the store after a block whose execution-layer requests add two voters with the same key hash -/
+def rDup : Relayer.State :=
+  processRequest crypto rBase 7 [{ voter := [5], keyHash := key32 9 }, { voter := [6], keyHash := key32 9 }] []
+
+theorem duplicate_key_hash_blocks_import :
+    RImportable addrOf dec rBase ∧ QueueDerived rBase ∧
+    exportRelayerGenesis rDup = .ok (exportLit rDup) ∧
+    initRelayerGenesis addrOf dec (exportLit rDup) = .panic "duplicated-vote-key" :=
+  ⟨by decide, by decide, export_lit rDup (by decide) (by decide) (by decide), by decide⟩
+
+/-! ### F-B  the boarding queue is rebuilt in key order, and its order decides the next proposer
+
+  The running chain queues on-boarding voters in arrival order; the import queues them in the order
+  of the exported voter records (address-string order).  `EndBlocker` appends the queue to
+  `Relayer.Voters` and elects the proposer *by position*.  The two stores below answer every query
+  alike and export the same genesis, yet elect different proposers at the next election. -/
+
+def proposerAfter : Outcome Relayer.State → Option String
+  | .ok t => some t.proposer
+  | _ => none
+
+/-- the store imported from the export of `r0` -/
+def r0' : Relayer.State := importedState addrOf (exportLit r0) (itemOf r0)
+
+theorem boarding_order_changes_next_proposer :
+    RImportable addrOf dec r0 ∧ QueueDerived r0 ∧
+    exportRelayerGenesis r0 = .ok (exportLit r0) ∧ initRelayerGenesis addrOf dec (exportLit r0) = .ok r0' ∧
+    exportRelayerGenesis r0' = .ok (exportLit r0) ∧
+    r0.onBoarding = ["d", "c"] ∧ r0'.onBoarding = ["c", "d"] ∧
+    proposerAfter (endBlocker crypto r0 1000) = some "d" ∧ proposerAfter (endBlocker crypto r0' 1000) = some "c" :=
+  ⟨by decide, by decide, export_lit r0 (by decide) (by decide) (by decide),
+   (initRelayer_ok_iff addrOf dec _ _).2 ⟨itemOf r0, by decide, rfl⟩,
+   export_lit r0' (by decide) (by decide) (by decide), by decide, by decide, by decide, by decide⟩
+
+end Finding
+
+/-! ## bundle -/
+section bundle
+open Goat.Relayer
+
+/-- **C18 (partial).**  Full statement: for *every reachable* application state, import ∘ export
+    reproduces the state (see the file header).  Proved: for every pair of stores satisfying the
+    invariants `WfState`, `Derived`, `RImportable`, `QueueDerived` — which the theorems of C13/C16 are
+    to establish for reachable committed states, except vote-key distinctness (finding F-A) — both
+    modules export and re-import without panic, the imported stores reproduce the originals (primary
+    data identical, derived collections equal as sets, boarding queue with the same members), the
+    validator updates handed to the consensus engine are the recorded validator set, and the second
+    export is identical to the first. -/
+theorem c18_round_trip_partial (h : Bytes → Bytes) (addrOf : Bytes → String) (dec : String → Bool)
+    (s : Locking.State) (r : Relayer.State)
+    (wf : WfState h s) (hd : Derived s) (rwf : RImportable addrOf dec r) (hq : QueueDerived r) :
+    (∃ s' ups, initGenesis h (exportGenesis s) = .ok (s', ups) ∧ Reproduces s s' ∧
+      (∀ u, u ∈ ups ↔ ∃ a v, (a, v) ∈ s.validators ∧ (a, u.power) ∈ s.valset ∧ v.pubkey = u.pubkey) ∧
+      exportGenesis s' = exportGenesis s) ∧
+    (∃ g r', exportRelayerGenesis r = .ok g ∧ initRelayerGenesis addrOf dec g = .ok r' ∧ RReproduces r r' ∧
+      QueueDerived r' ∧ (∀ a, a ∈ r'.onBoarding ↔ a ∈ r.onBoarding) ∧ (∀ a, a ∈ r'.offBoarding ↔ a ∈ r.offBoarding) ∧
+      exportRelayerGenesis r' = .ok g) := by
+  refine ⟨import_export h s wf hd, ?_⟩
+  obtain ⟨g, r', h1, h2, h3, h4⟩ := relayer_import_export addrOf dec r rwf
+  exact ⟨g, r', h1, h2, h3, h3.queue.1, (h3.queue.2 hq).1, (h3.queue.2 hq).2, h4⟩
+
+end bundle
 
 end Goat.C18
